@@ -1,0 +1,17 @@
+// SPDX-FileCopyrightText: 2026 The Pion community <https://pion.ly>
+// SPDX-License-Identifier: MIT
+
+//go:build verif
+
+package interceptor
+
+// Machine-checked contracts (comment-only; read by /verif/govc, never compiled into a normal build).
+//
+// Interface contracts: what every caller may assume of a reader / writer it is handed, and what every
+// implementation in this repository is verified to provide (behavioural subtyping).
+//
+//@ iface RTPReader.Read
+//@   ensures n_in_buffer: result2 == nil ==> 0 <= result0 && result0 <= len(arg0)
+//@
+//@ iface RTCPReader.Read
+//@   ensures n_in_buffer: result2 == nil ==> 0 <= result0 && result0 <= len(arg0)
